@@ -26,25 +26,33 @@ import (
 func VerifC14_Assign() {
 	env := New(100)
 	env.AddChain(ChainA, 1)
+	env.AddChain(ChainB, 2)
 	nv := 3
 	jailed := make([]bool, nv)
 	hasFee := make([]bool, nv)
 	mev := make([]bool, nv)
 	for i := 0; i < nv; i++ {
-		env.AddValidator(i, int64(10_000_000*(i+1)), ChainA)
+		env.AddValidator(i, int64(10_000_000*(i+1)), ChainA, ChainB)
 		jailed[i] = sym.Bool("jailed")
 		env.Staking.Find(Vals[i]).Jailed = jailed[i]
-		mev[i] = sym.Bool("mev-trait")
-		if mev[i] {
+		// the MEV trait is per chain account: none, on the job's chain, or (validator 0) on the other chain only
+		traitOn := ""
+		if i == 0 {
+			traitOn = []string{"", ChainA, ChainB}[sym.Choice("mev-trait-on", 3)]
+		} else if sym.Bool("mev-trait") {
+			traitOn = ChainA
+		}
+		if traitOn != "" && !jailed[i] {
 			infos, _ := env.Valset.GetValidatorChainInfos(env.Ctx, Vals[i])
-			infos[0].Traits = []string{valsettypes.PIGEON_TRAIT_MEV}
-			if !jailed[i] {
-				if err := env.Valset.SetExternalChainInfoState(env.Ctx, Vals[i], infos); err != nil {
-					panic(err)
+			for _, ci := range infos {
+				if ci.ChainReferenceID == traitOn {
+					ci.Traits = []string{valsettypes.PIGEON_TRAIT_MEV}
 				}
-			} else {
-				mev[i] = false
 			}
+			if err := env.Valset.SetExternalChainInfoState(env.Ctx, Vals[i], infos); err != nil {
+				panic(err)
+			}
+			mev[i] = traitOn == ChainA
 		}
 	}
 	if _, err := env.Valset.TriggerSnapshotBuild(env.Ctx); err != nil {
